@@ -147,21 +147,20 @@ theorem psbt_sighash_segwit_consensus (sha : Bytes → Bytes) (p : Psbt) (t : Tx
   simpa using this.symm
 
 /-- taproot inputs: the BIP341 digest of `PSBT.tx` over the utxos of all inputs (key path or script path, annex,
-    code separator as passed by the caller; `ext_flag` is 1 exactly on the script path) -/
+    code separator as passed by the caller; `ext_flag` is 1 exactly on the script path) — for EVERY hash type `f`:
+    where BIP341 defines none (0x80 included) both sides are `none`, i.e. `PSBT.sighash` raises -/
 theorem psbt_sighash_taproot_consensus (sha : Bytes → Bytes) (p : Psbt) (t : Tx) (i f : Nat) (x : TapExtra)
     (inp : InScope) (u : TxOut) (sc : Bytes) (us : List TxOut) (htx : p.tx = some t)
     (hi : p.inputs[i]? = some inp) (hu : inp.utxo = some u)
     (hd : sighashDispatch u.spk inp.witnessScript inp.redeemScript inp.witnessUtxo.isSome = (Algo.taproot, sc))
     (hus : optAll (p.inputs.map InScope.utxo) = some us)
-    (hf : validTaprootFlag f = true) (hx : x.extFlag = if x.script.isSome then 1 else 0) (hlv : x.leafVer < 256) :
+    (hx : x.extFlag = if x.script.isSome then 1 else 0) (hlv : x.leafVer < 256) :
     Psbt.sighash sha p i f x
       = bip341 sha t i (us.map (·.spk)) (us.map (·.value)) f x.annex (C01.leafOf x.script x.leafVer x.codesep) := by
   rw [psbt_sighash_tx_path sha p t i f x inp u htx hi hu, hd]
   simp only [hus]
-  have hl : (us.map (·.spk)).length = t.vin.length := by
-    rw [(tx_len_of_psbt p t htx).1, List.length_map, (optAll_getElem? InScope.utxo p.inputs us hus).1]
   rw [hx]
-  exact C01.taproot_eq_bip341 sha t i _ _ f x.annex x.script x.leafVer x.codesep hf hl hlv
+  exact C01.taproot_eq_bip341 sha t i _ _ f x.annex x.script x.leafVer x.codesep hlv
 
 /-! ### all three entry points -/
 
@@ -203,7 +202,8 @@ theorem all_entry_points_segwit_v0 (ko : KeyOps) (sha : Bytes → Bytes) (c : Na
   obtain ⟨ti, hti, _, hp⟩ := psbt_sighash_segwit_consensus sha p t i f x inp u sc ptx hi hu hd hf
   exact ⟨t, v, ti, ptx, ho, hti, C01.segwit_eq_bip143 sha t i ti sc u.value f hf hti, hp, by rw [hag, hp]⟩
 
-/-- taproot input of an accepted version-0 PSBT: all three entry points give the BIP341 digest -/
+/-- taproot input of an accepted version-0 PSBT: all three entry points give the BIP341 digest, for every hash type
+    (`d = none`, all three refuse, where BIP341 defines no digest — 0x80 included) -/
 theorem all_entry_points_taproot_v0 (ko : KeyOps) (sha : Bytes → Bytes) (c : Nat) (pre post b : Bytes) (p : Psbt)
     (h : Psbt.parse ko sha c b = some p)
     (htx : ∃ x, ([0x00], x) ∈ globalKVs b)
@@ -212,19 +212,17 @@ theorem all_entry_points_taproot_v0 (ko : KeyOps) (sha : Bytes → Bytes) (c : N
     (hi : p.inputs[i]? = some inp) (hu : inp.utxo = some u)
     (hd : sighashDispatch u.spk inp.witnessScript inp.redeemScript inp.witnessUtxo.isSome = (Algo.taproot, sc))
     (hus : optAll (p.inputs.map InScope.utxo) = some us)
-    (hf : validTaprootFlag f = true) (hx : x.extFlag = if x.script.isSome then 1 else 0) (hlv : x.leafVer < 256) :
+    (hx : x.extFlag = if x.script.isSome then 1 else 0) (hlv : x.leafVer < 256) :
     ∃ (t : Tx) (v : View) (d : Option Bytes), p.tx = some t ∧ View.open (pre ++ (b ++ post)) pre.length = some v
       ∧ d = bip341 sha t i (us.map (·.spk)) (us.map (·.value)) f x.annex (C01.leafOf x.script x.leafVer x.codesep)
       ∧ sighashTaproot sha t i (us.map (·.spk)) (us.map (·.value)) f x.extFlag x.annex x.script x.leafVer x.codesep = d
       ∧ Psbt.sighash sha p i f x = d
       ∧ View.sighash ko sha (pre ++ (b ++ post)) v c i f x = d := by
   obtain ⟨t, v, ptx, ho, _, hag⟩ := entry_points_agree_v0_partial ko sha c pre post b p h htx hcnt
-  have hp := psbt_sighash_taproot_consensus sha p t i f x inp u sc us ptx hi hu hd hus hf hx hlv
-  have hl : (us.map (·.spk)).length = t.vin.length := by
-    rw [(tx_len_of_psbt p t ptx).1, List.length_map, (optAll_getElem? InScope.utxo p.inputs us hus).1]
+  have hp := psbt_sighash_taproot_consensus sha p t i f x inp u sc us ptx hi hu hd hus hx hlv
   refine ⟨t, v, _, ptx, ho, rfl, ?_, hp, by rw [hag, hp]⟩
   rw [hx]
-  exact C01.taproot_eq_bip341 sha t i _ _ f x.annex x.script x.leafVer x.codesep hf hl hlv
+  exact C01.taproot_eq_bip341 sha t i _ _ f x.annex x.script x.leafVer x.codesep hlv
 
 /-- the same for version 2 (one statement for the three algorithms: whatever `PSBT.sighash` yields — by the three
     `psbt_sighash_*_consensus` theorems the consensus digest — the view yields too) -/
